@@ -37,30 +37,27 @@ impl RequestHandler<PrepareRenameRequest> for PrepareRenameRequestHandler {
                 if source_line >= source_file.file.num_lines() {
                     return Ok(None);
                 }
-                let line = source_file.file.source_line(source_line);
-                let mut source_column = source_column.min(line.len());
-                while !line.is_char_boundary(source_column) {
-                    source_column -= 1;
-                }
+                // (columns are counted in characters, like everywhere else in the server, not in bytes)
+                let line: Vec<char> = source_file.file.source_line(source_line).chars().collect();
+                let source_column = source_column.min(line.len());
+                let is_id = |c: &char| c.is_alphanumeric() || *c == '_';
 
                 // Try to find the start of identifier under the cursor
                 let start = line[..source_column]
-                    .char_indices()
-                    .rev()
-                    .find(|(_, c)| !c.is_alphanumeric() && *c != '_')
-                    .map(|(pos, c)| pos + c.len_utf8())
+                    .iter()
+                    .rposition(|c| !is_id(c))
+                    .map(|pos| pos + 1)
                     .unwrap_or_default();
 
                 // Find the end of the identifier under the cursor
                 let end = line[source_column..]
-                    .find(|c: char| !c.is_alphanumeric() && c != '_')
-                    .unwrap_or_else(|| line[source_column..].len());
-
-                // Adjust the offset to match the full line, not just the substring
-                let end = source_column + end;
+                    .iter()
+                    .position(|c| !is_id(c))
+                    .map(|pos| source_column + pos)
+                    .unwrap_or(line.len());
 
                 // This is now the identifier under the cursor
-                let id = Identifier::from(&line[start..end]);
+                let id = Identifier::from(line[start..end].iter().collect::<String>().as_str());
 
                 if id.is_super() {
                     // We don't want to allow renaming 'super'
